@@ -226,6 +226,7 @@ func (Prop) Plan(tier string) []lib.Workload {
 		{Name: "mutants", Cases: 6 * keysets(tier), MinNontrivial: 6 * keysets(tier) * 9 / 10, BatchTimeout: 40 * time.Minute},
 		{Name: "cross", Cases: 36 * 2 * crossReps(tier), MinNontrivial: 36 * 2 * crossReps(tier) * 9 / 10, BatchTimeout: 40 * time.Minute},
 		{Name: "onetoone", Cases: o2o, MinNontrivial: o2o * 9 / 10},
+		{Name: "concurrent", Cases: o2o / 4, Race: true, MinNontrivial: o2o / 8},
 	}
 }
 
@@ -252,6 +253,8 @@ func (Prop) RunCase(c *lib.Case) {
 		runCross(c)
 	case "onetoone":
 		runOneToOne(c)
+	case "concurrent":
+		runConcurrent(c)
 	}
 }
 
